@@ -4,6 +4,7 @@
    They are the lemmas the refinement  Impl [= Stream  is built from; the receiver-level statement
    is in the section "receiver" below as far as it is proved. *)
 From Via Require Import M_Char M_Parse M_Receive P_Parse.
+From Via Require Import P_Frag.
 Local Open Scope N_scope.
 
 Theorem C01_request_line_fragments : forall L a r b, rl_valid r = false ->
@@ -47,6 +48,58 @@ Example C01_example_fold_cut :
   /\ fl_value (fst (fst (fl_parse L fl_init (a ++ b)))) = [98; 32; 99].
 Proof. vm_compute. split; reflexivity. Qed.
 
+(* ---- the header block, the request head, the chunk and the receiver ---- *)
+(* message_headers::parse keeps a completed line pending until it has seen the character that follows it (a fold
+   continues the line); whatever the cut, parsing a ++ b is parsing a and then b from the state reached *)
+Theorem C01_header_block_fragments : forall L h a b, hd_ok h ->
+  hd_parse L h (a ++ b) =
+  match hd_parse L h a with
+  | (h1, ra, Fail) => (h1, ra ++ b, Fail)
+  | (h1, ra, Done) => (h1, ra ++ b, Done)
+  | (h1, ra, More) => hd_parse L h1 b
+  end.
+Proof. exact hd_parse_app. Qed.
+
+Theorem C01_request_head_fragments : forall L q a b, rq_ok q ->
+  rq_parse L q (a ++ b) =
+  match rq_parse L q a with
+  | (q1, ra, Done) => (q1, ra ++ b, Done)
+  | (q1, ra, Fail) => (q1, ra ++ b, Fail)
+  | (q1, _, More) => rq_parse L q1 b
+  end.
+Proof. exact rq_parse_app. Qed.
+
+(* a chunk: size line, data sliced by count, CR LF (CR possibly pending), trailers of the last chunk *)
+Theorem C01_chunk_fragments : forall L k a b, rc_ok k ->
+  rc_parse L k (a ++ b) =
+  match rc_parse L k a with
+  | (k1, ra, Done) => (k1, ra ++ b, Done)
+  | (k1, ra, Fail) => (k1, ra ++ b, Fail)
+  | (k1, _, More) => rc_parse L k1 b
+  end.
+Proof. exact rc_parse_app. Qed.
+
+(* request_receiver::receive, in every state a connection can reach by any sequence of reads: a call that stops
+   before the end of its buffer (a complete request, a chunk, a rejection, with bytes left over) returns the same
+   result whatever follows, and a call that ran out of data is continued exactly by the next call on the next read.
+   (Left out, and covered by the correspondence only: calls that complete exactly at the end of the read - there the
+   next read decides between "next request" and the 411 heuristic for requests without framing - and the interim
+   EXPECT_CONTINUE result, whose presence legitimately depends on whether the body shares the head's read.) *)
+Theorem C01_receive_fragments : forall cfg history a b v1 ra r,
+  let v := fst (fst (fst (feed cfg (rv_init cfg) history))) in
+  receive cfg v a = (v1, ra, r) ->
+  (ra <> [] -> receive cfg v (a ++ b) = (v1, ra ++ b, r)) /\
+  (ra = [] -> r = RX_INCOMPLETE -> rc_valid (rv_chunk v1) = false -> receive cfg v (a ++ b) = receive cfg v1 b).
+Proof. exact receive_app_reachable. Qed.
+
+(* the premises are met: the invariant holds initially *)
+Example C01_example_invariant : forall cfg, rv_ok (rv_init cfg).
+Proof. exact rv_ok_init. Qed.
+
 Print Assumptions C01_request_line_fragments.
 Print Assumptions C01_field_line_fragments.
 Print Assumptions C01_chunk_line_fragments.
+Print Assumptions C01_header_block_fragments.
+Print Assumptions C01_request_head_fragments.
+Print Assumptions C01_chunk_fragments.
+Print Assumptions C01_receive_fragments.
